@@ -94,7 +94,18 @@ impl Tokens {
     pub(crate) fn parse_literal(self) -> Result<UntypedExpr, Vec<ParseError>> {
         let mut parser = Parser::new(self.0);
         if let Some(token) = parser.tokens.next() {
-            parser.parse_literal(token, true).map_err(|_| parser.errors)
+            let literal = parser.parse_literal(token, true);
+            // (a literal is only valid without reported errors and without trailing tokens)
+            if let (Ok(_), true, Some(Token(_, meta))) =
+                (&literal, parser.errors.is_empty(), parser.tokens.peek())
+            {
+                let e = ParseErrorEnum::InvalidLiteral;
+                parser.errors.push(ParseError(e, *meta));
+            }
+            match literal {
+                Ok(literal) if parser.errors.is_empty() => Ok(literal),
+                _ => Err(parser.errors),
+            }
         } else {
             let e = ParseErrorEnum::InvalidLiteral;
             let meta = MetaInfo {
